@@ -204,6 +204,9 @@ class Ev:
         self._sigs = {}
         self._eh, self._sh, self._meth = {}, {}, {}
         self.watch = {}           # qualname -> callback(args tuple) -> args tuple: observation of calls between anchors
+        self.seen_stmt = set()    # coverage of the evaluated functions (side-condition of the bounded evaluation)
+        self.seen_test = {}
+        self.entered = {}
         b = {n: getattr(builtins, n) for n in (
             'list', 'tuple', 'set', 'frozenset', 'dict', 'len', 'enumerate', 'zip', 'range', 'sorted', 'reversed', 'min', 'max', 'sum', 'any',
             'all', 'next', 'iter', 'float', 'int', 'str', 'bool', 'abs', 'map', 'filter', 'repr', 'round', 'divmod') + _EXC_NAMES}
@@ -318,6 +321,8 @@ class Ev:
         node = fv.node
         pos, posonly, kwo, defaults, vararg, kwarg, is_gen = self._sig(node)
         fr = Frame(fv.fi, fv.closure)
+        if node is fv.fi.node:
+            self.entered[fv.fi.qualname] = fv.fi
         if self.watch and node is fv.fi.node and fv.fi.qualname in self.watch:
             args = self.watch[fv.fi.qualname](tuple(args))
         if fv.bound is not None:
@@ -586,7 +591,9 @@ class Ev:
         return True
 
     def e_IfExp(self, e, fr):
-        return self.ev(e.body, fr) if self.truth(self.ev(e.test, fr)) else self.ev(e.orelse, fr)
+        t = self.truth(self.ev(e.test, fr))
+        self.seen_test.setdefault(id(e), set()).add(bool(t))
+        return self.ev(e.body, fr) if t else self.ev(e.orelse, fr)
 
     def e_NamedExpr(self, e, fr):
         v = self.ev(e.value, fr)
@@ -717,7 +724,9 @@ class Ev:
 
     def block(self, stmts, fr):
         sh = self._sh
+        seen = self.seen_stmt
         for s in stmts:
+            seen.add(id(s))
             h = sh.get(type(s))
             if h is None:
                 h = sh[type(s)] = getattr(self, 's_' + type(s).__name__, self._s_unknown)
@@ -783,12 +792,16 @@ class Ev:
 
     def s_If(self, s, fr):
         self.tick(s)
-        return self.block(s.body if self.truth(self.ev(s.test, fr)) else s.orelse, fr)
+        t = self.truth(self.ev(s.test, fr))
+        self.seen_test.setdefault(id(s), set()).add(bool(t))
+        return self.block(s.body if t else s.orelse, fr)
 
     def s_While(self, s, fr):
         while True:
             self.tick(s)
-            if not self.truth(self.ev(s.test, fr)):
+            t = self.truth(self.ev(s.test, fr))
+            self.seen_test.setdefault(id(s), set()).add(bool(t))
+            if not t:
                 break
             r = self.block(s.body, fr)
             if r is _BREAK:
@@ -1468,6 +1481,33 @@ def check_match_guards(ctx):
                 not foreign, expected=f'tests over {sorted(match_names | mapping)} only', found=foreign or 'guards over the match result only', stmt=s)
     rep.floor('N1', 'guarded record / skip statements in find_matches', len(sites), 1)
 
+
+def check_coverage(ctx, ev):
+    """Side-condition of the bounded evaluation: the scenario domain must exercise every statement, and every test outcome that
+    code hangs on, of every function of gambit.classify it entered.  Code the domain never reaches (a special case for more taxa
+    than enumerated, an environment switch ...) cannot be vouched for: the run is undecided, never a pass."""
+    unc = []
+    for q, fi in sorted(ev.entered.items()):
+        if not q.startswith(CL + '.'):
+            continue
+        for s in stmts_in(fi.node.body):
+            if isinstance(s, (ast.FunctionDef, ast.AsyncFunctionDef, ast.ClassDef, ast.Pass)) or (isinstance(s, ast.Expr) and isinstance(s.value, ast.Constant)):
+                continue
+            if id(s) not in ev.seen_stmt:
+                unc.append(f'{q}: statement never reached on the evaluated domain: `{u(s)[:70]}` (line {s.lineno})')
+        for n in ast.walk(fi.node):
+            if isinstance(n, (ast.If, ast.While, ast.IfExp)) and not isinstance(n.test, ast.Constant):
+                got = ev.seen_test.get(id(n))
+                if got is not None and len(got) < 2:
+                    if True in got and isinstance(n, ast.If) and not n.orelse:
+                        continue      # nothing hangs on the untaken outcome
+                    if isinstance(n, ast.While) and got == {False}:
+                        pass
+                    unc.append(f'{q}: test `{u(n.test)[:70]}` is always {sorted(got)[0]} on the evaluated domain (line {n.lineno})')
+    ctx.rep.info['evaluated_functions'] = sorted(q for q in ev.entered if q.startswith(CL + '.'))
+    if unc:
+        raise Undecided('bounded evaluation does not cover the code: ' + '; '.join(unc[:3]))
+
 def check(ctx):
     rep = ctx.rep
     rep.rule('N1', 'find_matches: enumerate index recorded under matching_taxon(g.taxon, d) when not None; strict mode feeds every (genome, distance) pair (finite-domain evaluation)')
@@ -1489,6 +1529,8 @@ def check(ctx):
     eval_classify(ctx, ev, dom, sc, thresh=_THRESH_NM, tag=' (thresholds not monotone)')
     check_match_guards(ctx)
     rep.info['finite_domain_evaluations'] = ev.evaluations
+    if not rep.violations:
+        check_coverage(ctx, ev)
 
 
 def thorough(ctx):
